@@ -99,10 +99,11 @@ func VerifRibNodes() (nodes int, dead int) {
 
 // VerifFibShape is a white-box walk of the FIB/strategy table (either implementation).
 type VerifFibShape struct {
-	Nodes    int // tree: nodes excluding the root; hash table: real entries excluding the root entry
-	Dead     int // tree: leaves with neither next hops nor strategy; hash table: real entries with neither
-	Virt     int // hash table: virtual entries
-	VirtDead int // hash table: virtual entries that no longer cover any real name
+	Nodes     int // tree: nodes excluding the root; hash table: real entries excluding the root entry
+	Dead      int // tree: leaves with neither next hops nor strategy; hash table: real entries with neither
+	Virt      int // hash table: virtual entries
+	VirtDead  int // hash table: virtual entries that no longer cover any real name
+	VirtStale int // hash table: disagreements between the virtual tables (md, name sets) and the real entries
 }
 
 func VerifFibShapeOf() VerifFibShape {
@@ -131,9 +132,52 @@ func VerifFibShapeOf() VerifFibShape {
 			}
 		}
 		s.Virt = len(f.virtTable)
-		for h := range f.virtTable {
-			if len(f.virtTableNames[h]) == 0 {
+		// what the virtual tables should hold, recomputed from the real entries
+		type want struct {
+			md    int
+			names map[string]bool
+		}
+		wants := map[uint64]*want{}
+		for _, e := range f.realTable {
+			if len(e.name) >= f.m && f.m > 0 {
+				h := e.name.PrefixHash()[f.m]
+				w := wants[h]
+				if w == nil {
+					w = &want{names: map[string]bool{}}
+					wants[h] = w
+				}
+				w.md = max(w.md, len(e.name))
+				w.names[string(e.name.Bytes())] = true
+			}
+		}
+		for h, v := range f.virtTable {
+			w := wants[h]
+			if w == nil || len(f.virtTableNames[h]) == 0 {
 				s.VirtDead++
+				continue
+			}
+			if v.md != w.md {
+				s.VirtStale++
+			}
+		}
+		for h, names := range f.virtTableNames {
+			w := wants[h]
+			for nb := range names {
+				if w == nil || !w.names[nb] {
+					s.VirtStale++ // a name that is no longer in the real table
+				}
+			}
+			if w != nil {
+				for nb := range w.names {
+					if _, ok := names[nb]; !ok {
+						s.VirtStale++ // a real name the virtual tables do not know
+					}
+				}
+			}
+		}
+		for h := range wants {
+			if _, ok := f.virtTable[h]; !ok {
+				s.VirtStale++
 			}
 		}
 	}
